@@ -1,23 +1,49 @@
 #!/bin/bash
 # Runs checks against a mutated copy of /repo without touching /repo or the
-# committed evidence:   tools/mutcheck.sh <patch.diff> Cxx [Cyy ...]
-# The patch is applied to a scratch git worktree of /repo's HEAD; a scratch copy
-# of the harness (dependencies reused) is pointed at it. Everything is removed at
-# the end. Output: one line per check, "Cxx: rc=<0|1> <last line>".
+# committed evidence:
+#     tools/mutcheck.sh <patch.diff> Cxx [Cyy ...]
+# The scratch tree = /repo HEAD + /repo's uncommitted working-tree changes (hooks and
+# fixes under construction) + the patch. Uses one of a few persistent slots under
+# /tmp/mutcache (scratch worktree + harness copy with its own target dir, so that
+# only what changed is rebuilt); slots are locked, the worktree is reset on entry.
+# Env: MUT_TIER=quick|thorough, MUT_KEEP=<dir> (copy replays there), MUT_REVERSE=1
+# (apply the patch with -R, e.g. to revert a fix).
+# Output: one line per check, "Cxx: rc=<0|1> <VIOLATION/KNOWN lines> | <summary>".
 set -u
 PATCH=$(readlink -f "$1"); shift
-W=/tmp/mut-$$
-trap 'git -C /repo worktree remove --force $W/repo >/dev/null 2>&1; rm -rf $W' EXIT
+mkdir -p /tmp/mutcache
+SLOT=""
+for i in 0 1 2 3 4 5; do
+  exec 9>/tmp/mutcache/s$i.lock
+  if flock -n 9; then SLOT=/tmp/mutcache/s$i; break; fi
+done
+if [ -z "$SLOT" ]; then exec 9>/tmp/mutcache/s0.lock; flock 9; SLOT=/tmp/mutcache/s0; fi
+W=$SLOT
 mkdir -p $W
-git -C /repo worktree add --detach $W/repo HEAD >/dev/null 2>&1 || { echo "worktree failed"; exit 2; }
-if ! git -C $W/repo apply "$PATCH"; then echo "patch does not apply"; exit 2; fi
+if [ ! -e $W/repo/.git ]; then
+  git -C /repo worktree prune
+  git -C /repo worktree add --detach $W/repo HEAD >/dev/null 2>&1 || { echo "worktree failed"; exit 2; }
+fi
+git -C $W/repo checkout -q --detach "$(git -C /repo rev-parse HEAD)" 2>/dev/null
+git -C $W/repo reset -q --hard
+git -C $W/repo clean -qfd
+git -C /repo diff HEAD > $W/wt.diff
+if [ -s $W/wt.diff ]; then
+  git -C $W/repo apply $W/wt.diff || { echo "working-tree diff does not apply"; exit 2; }
+fi
+if [ -n "${MUT_REVERSE:-}" ]; then
+  git -C $W/repo apply -R "$PATCH" || { echo "patch does not apply (reverse)"; exit 2; }
+else
+  git -C $W/repo apply "$PATCH" || { echo "patch does not apply"; exit 2; }
+fi
 mkdir -p $W/harness
-(cd /verif/harness && tar cf - --exclude=./target/debug/incremental . ) | (cd $W/harness && tar xf -)
+rsync -a --delete --exclude target /verif/harness/ $W/harness/
 sed -i "s#path = \"/repo\"#path = \"$W/repo\"#" $W/harness/Cargo.toml
-mkdir -p $W/out
+rm -rf $W/out; mkdir -p $W/out
 for c in "$@"; do
   out=$(cd /verif && VERIF_HARNESS_DIR=$W/harness VERIF_OUT_DIR=$W/out VERIF_REPO=$W/repo ./check $c ${MUT_TIER:+--tier $MUT_TIER} 2>&1)
   rc=$?
   echo "$c: rc=$rc $(echo "$out" | grep -E 'VIOLATION|KNOWN-FINDING' | head -3 | tr '\n' ' ') | $(echo "$out" | grep -E "^$c " | tail -1)"
   if [ -n "${MUT_KEEP:-}" ]; then mkdir -p "$MUT_KEEP"; cp -r $W/out/replays "$MUT_KEEP/" 2>/dev/null; fi
 done
+git -C $W/repo reset -q --hard
